@@ -437,7 +437,7 @@ PARTS = {
                              "signed helpers: sign + magnitude, |v| <= 2^(n-1)-1, called for negative values only"],
                 trusted_base=["integer promotion of sub-int vbitsVal types is modelled as V-bit arithmetic "
                               "(truncation commutes with <<,>>,&,|,~); checked by the 8/8,16/16,32/32 instantiations"],
-                configs_quick=["pinned", "O0"]),
+                configs_quick=["pinned", "O0", "native"]),
     "C10": dict(coq_props=["Properties_C10_bitdim"], files=FILES_C10, rule=RULE_C10, generate=generate_C10,
                 oracles={"dim_pack": o_dim_pack, "dim_pair": o_dim_pair, "dim_cell": o_dim_cell},
                 classify=classify_C10, search=search_C10,
@@ -449,5 +449,5 @@ PARTS = {
                               "varintDimensionPairDecode (static) and the half accessors are exercised through a private "
                               "second compilation of varintDimension.c (harness/c/drv_bitdim_priv.c)",
                               "varintExternalPutFixedWidth/Get modelled as little-endian byte strings"],
-                configs_quick=["pinned", "O0"]),
+                configs_quick=["pinned", "O0", "native"]),
 }
